@@ -26,6 +26,7 @@ type docGen struct {
 	id   string
 	feat map[string]bool
 	lang int // 0 latin, 1 cjk mix, 2 hangul mix
+	ogAlias string
 }
 
 var latinStems = []string{"alpha", "bravo", "candle", "delta", "ember", "fjord", "garnet", "harbor", "island", "jungle",
@@ -48,10 +49,17 @@ func (g *docGen) word() string {
 	return fmt.Sprintf("%s%s%d", Pick(g.r, latinStems), g.id, g.tok)
 }
 
+var entitySoup = []string{"1 &lt; x and y &gt; 2", "a &amp; b", "&#60;b&#62;not bold&#60;/b&#62;", "&amp;lt;i&amp;gt;", "x&nbsp;y", "if (a &lt; b &amp;&amp; c &gt; d)", "&lt;&gt;", "5 &gt; 3 &lt; 4 &gt; 1", "&quot;q&quot;", "&#x1F600;", "&notanentity;", "&lt;script&gt;alert(1)&lt;/script&gt;"}
+
 func (g *docGen) words(n int) string {
 	var sb strings.Builder
 	for i := 0; i < n; i++ {
 		if i > 0 {
+			sb.WriteByte(' ')
+		}
+		if g.r.P(1, 60) {
+			g.f("entity-soup")
+			sb.WriteString(Pick(g.r, entitySoup))
 			sb.WriteByte(' ')
 		}
 		sb.WriteString(g.word())
@@ -436,7 +444,7 @@ func (g *docGen) unlikely(big bool) {
 
 // pager writes a pager and returns a page URL consistent with it.
 func (g *docGen) pager(host string) string {
-	kind := g.r.Intn(11)
+	kind := g.r.Intn(12)
 	n := g.r.Range(2, 9)
 	cur := g.r.Range(1, n)
 	var hrefs []string
@@ -481,6 +489,10 @@ func (g *docGen) pager(host string) string {
 	case 8:
 		g.f("pager-descending")
 		mk = func(i int) string { return fmt.Sprintf("%s/thread/%d", base, n-i+1) }
+	case 11:
+		// query-only relative references: they keep the whole path of the page URL
+		g.f("pager-query-only-relative")
+		mk = func(i int) string { return fmt.Sprintf("?page=%d", i) }
 	case 9, 10:
 		// fuzzed template: the page number at an arbitrary place of path or
 		// query, with arbitrary short neighbours; page 1 may drop the number
@@ -532,6 +544,8 @@ func (g *docGen) pager(host string) string {
 		pageURL = mk(cur)
 		if strings.HasPrefix(pageURL, "/") {
 			pageURL = base + pageURL
+		} else if strings.HasPrefix(pageURL, "?") {
+			pageURL = base + "/world/" + Pick(g.r, []string{"first-story", "second-story", "third-story"}) + pageURL
 		}
 	}
 	wrap := Pick(g.r, []string{"div", "ul", "p", "span", "nav"})
@@ -599,10 +613,17 @@ func (g *docGen) head(host string) {
 			title += sep + g.words(g.r.Range(1, 3))
 		}
 	}
-	if !g.r.P(1, 10) {
-		g.w("<title>" + title + "</title>")
-	} else {
+	switch {
+	case g.r.P(1, 10):
 		g.f("no-title")
+	case g.r.P(1, 8):
+		g.f("short-title")
+		g.w("<title>" + Pick(g.r, []string{"Docs", "Home", "x", "News"}) + "</title>")
+	case g.r.P(1, 12):
+		g.f("long-title")
+		g.w("<title>" + g.words(40) + "</title>")
+	default:
+		g.w("<title>" + title + "</title>")
 	}
 	if g.r.P(1, 2) {
 		g.f("opengraph")
@@ -617,6 +638,12 @@ func (g *docGen) head(host string) {
 		}
 		if g.r.Bool() {
 			g.wf(`<meta property="og:description" content="%s"><meta property="og:site_name" content="%s">`, g.words(8), g.word())
+		}
+		if g.ogAlias != "" {
+			// the same properties declared again under the alias prefix, with other values
+			a := g.ogAlias
+			g.wf(`<meta property="%s:title" content="%s"><meta property="%s:type" content="website"><meta property="%s:url" content="http://%s/alias-url"><meta property="%s:image" content="http://%s/alias.jpg"><meta property="%s:description" content="%s">`,
+				a, g.words(3), a, a, host, a, host, a, g.words(4))
 		}
 		if g.r.Bool() {
 			g.wf(`<meta property="article:published_time" content="2014-0%d-01"><meta property="article:author" content="%s"><meta property="article:author" content="%s"><meta property="article:section" content="%s">`, g.r.Range(1, 9), g.word(), g.word(), g.word())
@@ -689,7 +716,29 @@ func (g *docGen) body(host string) string {
 	}
 	g.w(`<div id="content" class="` + Pick(g.r, []string{"article", "post", "main", "entry-content", "story", ""}) + `">`)
 	if g.r.P(4, 5) {
-		g.wf("<h1>%s</h1>\n", g.words(g.r.Range(2, 8)))
+		switch g.r.Intn(6) {
+		case 0:
+			// documentation-generator style heading with a permalink anchor and inline children
+			g.f("h1-permalink")
+			g.wf(`<h1 id="sec">%s <em>%s</em><a class="%s" href="#sec" title="Permalink">¶</a></h1>`+"\n", g.words(g.r.Range(2, 6)), g.word(),
+				Pick(g.r, []string{"headerlink", "anchor", "hash-link", "header-anchor", "permalink", "anchor-link"}))
+		case 1:
+			g.f("h1-inline-children")
+			g.wf(`<h1><span class="mw-headline">%s</span> <small>%s</small><span class="mw-editsection">[<a href="/w?action=edit&section=1">edit</a>]</span></h1>`+"\n", g.words(g.r.Range(2, 6)), g.word())
+		default:
+			g.wf("<h1>%s</h1>\n", g.words(g.r.Range(2, 8)))
+		}
+	}
+	if g.r.P(1, 8) {
+		// a gallery of lead-image candidates before the article text, with tied scores
+		g.f("gallery")
+		g.wf(`<img src="/img/logo%d.png" width="120" height="40"><img src="/img/avatar%d.png">`, g.tok, g.tok)
+		n := Pick(g.r, []int{2, 5, 11, 13, 16, 30})
+		g.w(`<div class="gallery">`)
+		for i := 0; i < n; i++ {
+			g.wf(`<figure><img src="/img/thumb-%02d-%d.jpg" width="300" height="200"><figcaption>%s</figcaption></figure>`, i, g.tok, g.words(3))
+		}
+		g.w("</div>\n")
 	}
 	if g.r.P(1, 3) {
 		g.f("byline")
@@ -782,8 +831,20 @@ func Document(seed uint64) GenDoc {
 		g.w("<!DOCTYPE html>\n")
 	}
 	g.w("<html")
-	if r.P(1, 4) {
+	switch r.Intn(10) {
+	case 0, 1:
 		g.w(` prefix="og: http://ogp.me/ns# article: http://ogp.me/ns/article#" xmlns:og="http://ogp.me/ns#"`)
+	case 2:
+		// one namespace bound to several prefix names
+		g.f("og-multi-prefix")
+		g.ogAlias = "ogp"
+		g.w(` xmlns:og="http://ogp.me/ns#" xmlns:ogp="http://ogp.me/ns#" xmlns:fb="http://ogp.me/ns/fb#"`)
+	case 3:
+		g.f("og-multi-prefix")
+		g.ogAlias = "graph"
+		g.w(` prefix="og: http://ogp.me/ns# graph: http://ogp.me/ns# profile: http://ogp.me/ns/profile# p2: http://ogp.me/ns/profile#"`)
+	case 4:
+		g.w(` lang="en" itemscope itemtype="http://schema.org/Article"`)
 	}
 	g.w(">\n")
 	g.head(host)
@@ -1138,4 +1199,25 @@ func PagerDoc(seed uint64) GenDoc {
 		url = base + href(n)
 	}
 	return GenDoc{Bytes: []byte(sb.String()), URL: url, Origin: fmt.Sprintf("pagerdoc:%x", seed), Features: []string{"pagerdoc", fmt.Sprintf("pagerdoc-bare%d", bare)}, UTF8: true}
+}
+
+// SiblingURL returns a URL in the same directory as u with a different last
+// path segment (or a different trailing number): two pages of one site.
+func SiblingURL(r *Rand, u string) string {
+	q := ""
+	if i := strings.IndexAny(u, "?#"); i >= 0 {
+		u, q = u[:i], u[i:]
+	}
+	i := strings.LastIndex(u, "/")
+	if i < len("http://x") {
+		return u + "/sibling" + q
+	}
+	last := u[i+1:]
+	switch {
+	case last == "":
+		return u + "index2" + q
+	case last[len(last)-1] >= '0' && last[len(last)-1] <= '8':
+		return u[:len(u)-1] + string(last[len(last)-1]+1) + q
+	}
+	return u[:i+1] + Pick(r, []string{"first-story", "second-story", "other", last + "-b"}) + q
 }
